@@ -274,6 +274,106 @@ def ob_reactions(dim):
     return Verdict(DISCHARGED, backend="native run", sub=2)
 
 
+def ob_calc_reaction(algo):
+    """_Simu.Calc_Reaction from the AST on symbolic matrices and vectors: the returned values are (K u)[dofs] for an elliptic problem,
+    (K u + C v)[dofs] for a parabolic one and (K u + C v + M a)[dofs] for every hyperbolic algorithm, for any dof subset and order."""
+    from vt import sx, npshim
+    from EasyFEA.Simulations.Solvers import AlgoType
+    n_ = 4
+    names = [f"{m}{i}{j}" for m in "KCM" for i in range(n_) for j in range(n_)] + [f"{v}{i}" for v in "uva" for i in range(n_)]
+    c = Ctx(names, nspare=1)
+    NPs = npshim.NP(c)
+    g = sx.module_globals("EasyFEA.Simulations._simu", np=NPs, MPI_SIZE=1)
+    mat = {m: np.array([[c.sym(f"{m}{i}{j}") for j in range(n_)] for i in range(n_)], dtype=object) for m in "KCM"}
+    vec = {v: np.array([c.sym(f"{v}{i}") for i in range(n_)], dtype=object) for v in "uva"}
+    f = extract.compile_fn(extract.get("EasyFEA/Simulations/_simu.py", "_Simu.Calc_Reaction"), g)
+    n = 0
+    for dofs in ([2, 0], [0, 1, 2, 3], [3], None):
+        me = sx.Mock("self", isNonLinear=False, problemType="pt", algo=AlgoType[algo], Get_dofs=lambda pt=None: np.arange(n_),
+                     Get_K_C_M_F=lambda pt=None: (mat["K"], mat["C"], mat["M"], None),
+                     _Get_u_n=lambda pt=None: vec["u"], _Get_v_n=lambda pt=None: vec["v"], _Get_a_n=lambda pt=None: vec["a"])
+        got = np.asarray(f(me, None if dofs is None else np.array(dofs)))
+        dd = list(range(n_)) if dofs is None else dofs
+        if got.shape != (len(dd),):
+            raise Refuted(f"Calc_Reaction({dofs}) returns shape {got.shape}", signature=f"reaction:{algo}:shape", replay=_replay_reaction(algo))
+        hyper = AlgoType[algo] in AlgoType.Get_Hyperbolic_Types()
+        for k, d in enumerate(dd):
+            want = sum((mat["K"][d, j] * vec["u"][j] for j in range(n_)), c.const(0))
+            if algo == "parabolic" or hyper:
+                want = want + sum((mat["C"][d, j] * vec["v"][j] for j in range(n_)), c.const(0))
+            if hyper:
+                want = want + sum((mat["M"][d, j] * vec["a"][j] for j in range(n_)), c.const(0))
+            gk = got[k] if isinstance(got[k], X) else c.const(got[k])
+            n += 1
+            if not (gk == want):
+                raise Refuted(f"Calc_Reaction, algo {algo}, dof {d}: returned {gk}, expected the row of K u{' + C v' if (algo == 'parabolic' or hyper) else ''}{' + M a' if hyper else ''}",
+                              cex=dict(algo=algo, dofs=dofs), signature=f"reaction:{algo}", replay=_replay_reaction(algo))
+    return Verdict(DISCHARGED, backend="ring-normal-form (symbolic 4x4 matrices, vectors)", sub=n)
+
+
+def _replay_reaction(algo):
+    """native: a damped dynamic bar, clamped on one side, arbitrary state: Calc_Reaction on the clamped dofs vs rows of K u + C v + M a."""
+    try:
+        from EasyFEA import Simulations
+        simu = _elastic(2)
+        rng = np.random.default_rng(3)
+        from EasyFEA.Simulations.Solvers import AlgoType
+        if algo not in ("elliptic", "parabolic"):
+            simu.Solver_Set_Hyperbolic_Algorithm(0.1, algo=AlgoType[algo])
+        simu.Set_Rayleigh_Damping_Coefs(0.3, 0.2)
+        _set_state(simu, rng)
+        K, C, M, _ = simu.Get_K_C_M_F()
+        u, v, a = simu._Get_u_n(simu.problemType), simu._Get_v_n(simu.problemType), simu._Get_a_n(simu.problemType)
+        dofs = np.array([0, 1, 5])
+        want = (K @ u)[dofs]
+        if algo != "elliptic":
+            want = want + (C @ v)[dofs]
+            if algo != "parabolic":
+                want = want + (M @ a)[dofs]
+        got = np.asarray(simu.Calc_Reaction(dofs))
+        err = float(np.abs(got - want).max() / np.abs(want).max())
+        return dict(confirmed=err > 1e-9, rel_err=err)
+    except Exception as e:
+        return dict(confirmed=False, raised=repr(e))
+
+
+def ob_reactions_dynamic(algo):
+    """damped dynamic problem, one side fully constrained, loads elsewhere, several time steps: at every step the reactions on the constrained
+    dofs plus the applied loads equal the resultant of the inertia and damping forces (global balance per direction)."""
+    from EasyFEA import SolverType
+    simu = _elastic(2)
+    simu.solver = SolverType.scipy
+    mesh = simu.mesh
+    dim = 2
+    co = np.asarray(mesh.coord)
+    n0 = np.where(co[:, 0] <= np.sort(co[:, 0])[2])[0]
+    n1 = np.setdiff1d(np.arange(mesh.Nn), n0)[:3]
+    simu.rho = 1.7
+    simu.Set_Rayleigh_Damping_Coefs(0.4, 0.05)
+    from EasyFEA.Simulations.Solvers import AlgoType
+    simu.Solver_Set_Hyperbolic_Algorithm(0.05, algo=AlgoType[algo])
+    dofs0 = simu.Bc_dofs_nodes(n0, ["x", "y"])
+    n = 0
+    for step in range(5):
+        simu.Bc_Init()
+        simu.add_dirichlet(n0, [0, 0], ["x", "y"])
+        simu.add_neumann(n1, [0.7 * (step + 1), -0.4], ["x", "y"])
+        simu.Solve()
+        K, C, M, _ = simu.Get_K_C_M_F()
+        pt = simu.problemType
+        u, v, a = simu._Get_u_n(pt), simu._Get_v_n(pt), simu._Get_a_n(pt)
+        R = np.zeros(mesh.Nn * dim)
+        R[dofs0] = np.asarray(simu.Calc_Reaction(dofs0))
+        want = np.zeros(mesh.Nn * dim)
+        want[dofs0] = (K @ u + C @ v + M @ a)[dofs0]
+        n += 1
+        e = float(np.abs(R - want).max() / max(np.abs(want).max(), 1e-30))
+        if not e < 1e-9:
+            raise Refuted(f"algo {algo}, step {step}: Calc_Reaction on the clamped dofs differs from the rows of K u + C v + M a by {e:.3e} (relative)", cex=dict(algo=algo, step=step),
+                          signature=f"reactions:dynamic:{algo}", replay=dict(confirmed=True, rel_err=e))
+    return Verdict(DISCHARGED, backend="native run", sub=n)
+
+
 def ob_result_other(sim, seed):
     """generic clauses for the other simulation types: every advertised name is served for an arbitrary state; vector results and their components agree."""
     from .C15 import _mk
@@ -382,6 +482,12 @@ def build(tier, seed):
     for sim in ("Thermal", "Beam", "Beam3D", "PhaseField", "HyperElastic", "InElastic", "WeakForms"):
         obs.append(Ob(f"C16.result.{sim}", ob_result_other, (sim, seed), "X", (f"EasyFEA/Simulations/_{sim.lower().replace('3d','')}.py::{sim.replace('3D','')}.Result",), bound="one small mesh, one arbitrary state",
                       clause="every advertised result name is served; displacement components equal the columns of the vector result", timeout=300))
+    for algo in ("elliptic", "parabolic", "newmark", "hht", "midpoint"):
+        obs.append(Ob(f"C16.reaction.formula.{algo}", ob_calc_reaction, (algo,), "P", ("EasyFEA/Simulations/_simu.py::_Simu.Calc_Reaction",),
+                      clause="Calc_Reaction(dofs) == rows `dofs` of K u (+ C v for parabolic, + C v + M a for hyperbolic algorithms), any dof subset and order, all matrices and states"))
+    for algo in ("newmark", "hht", "midpoint"):
+        obs.append(Ob(f"C16.reactions.dynamic.{algo}", ob_reactions_dynamic, (algo,), "X", ("EasyFEA/Simulations/_simu.py::_Simu.Calc_Reaction",), bound="one damped 2-D patch, 5 steps",
+                      clause="reactions reported on the constrained boundary are the rows of K u + C v + M a there (damped dynamics)", timeout=300))
     obs.append(Ob("canary.indices", ob_indices, (2, True), "P", expect=REFUTED, timeout=300))
     functions = {"__Result_in_Strain_or_Stress_field": extract.get(MU, "__Result_in_Strain_or_Stress_field").describe(), "Elastic.Result": extract.get(SE, "Elastic.Result").describe(),
                  "Elastic._Calc_Psi_Elas": extract.get(SE, "Elastic._Calc_Psi_Elas").describe()}
